@@ -191,7 +191,7 @@ func Groups(opts []cat.Opts, cb bool) []*cat.Catalog {
 		}
 	})
 	for _, p1 := range places() {
-		for _, p2 := range places() {
+		for pi2, p2 := range places() {
 			for _, gm := range []string{"grp", "soft"} {
 				for _, s3 := range []string{"r", "a", "b"} {
 					for di, mk := range decVariants {
@@ -200,7 +200,7 @@ func Groups(opts []cat.Opts, cb bool) []*cat.Catalog {
 						}
 						c := &cat.Catalog{Parent: copyTree(chainTree), Fns: map[string]*cat.Fn{}}
 						c.Fns["c1"] = ctor(p1, nil, grp("T2@g"), cat.Result{Ks: []string{"T3"}, M: "one"})
-						c.Fns["c2"] = ctor(p2, nil, flat("T2@g", 2))
+						c.Fns["c2"] = ctor(p2, nil, flat("T2@g", []int{2, 0, 2, 1, 2}[(pi2+di)%5]))
 						c.Fns["c3"] = ctor(Place{s3, false}, []cat.Param{par("T2@g", gm, 1), par("T3", "opt", 1)}, one("T1"))
 						c.Fns["i1"] = inv(par("T1", "req", 0))
 						c.Fns["i2"] = inv(par("T2@g", "grp", 1))
